@@ -8,6 +8,7 @@ import Driver.ICH
 import Driver.WtoH
 import Driver.NumH
 import Driver.LinH
+import Driver.EnvH
 
 /-!
   crabdrv : line-protocol driver.  Reads cases on stdin, one per line
@@ -34,6 +35,8 @@ def dispatch (comp op : String) (args res : List Sexp) : Verdict :=
   | "num" => handleNum op args res
   | "safe" => handleSafe op args res
   | "lin" => handleLin op args res
+  | "env" => handleEnv op args res
+  | "pset" => handlePSet op args res
   | _ => .bad s!"unknown component {comp}"
 
 def handleLine (line : String) : Verdict :=
